@@ -116,6 +116,7 @@ structure BCtx where
 inductive BErr
   | multAssign            -- TextXSemanticError, err_type "Multiple assignments"
   | unhashableName        -- TextXSemanticError "Object name can't be of unhashable type"
+  | indexError            -- `nt[0]` / `node[0]` on an empty NonTerminal: Python raises IndexError
   | bad (what : String)   -- parse tree shape the real code would not produce
   | fuel
 deriving Repr, Inhabited, DecidableEq
@@ -189,6 +190,7 @@ def processMatch (x : BCtx) : Nat → Val → Except BErr PVal
       match x.node? id with
       | some nd => .ok (convert nd.node.rule (x.termText nd pos len))
       | none => .error (.bad "node")
+    | .nt _ [] => .error .indexError             -- `process_match(nt[0])` on an empty NonTerminal
     | .nt _ [k] => processMatch x f k            -- process(result, nt.rule_name) is the identity
     | .nt _ ks => do
       let parts ← processMatchList x f ks
@@ -221,6 +223,7 @@ def processNode (x : BCtx) : Nat → Val → Option Nat → BSt → BRes Value
         match x.kindOf nd.node.rule with
         | .abstract =>
           match ks with
+          | [] => .error .indexError               -- `process_node(node[0])`
           | [k] => processNode x f k top st
           | ks =>
             -- first non-Terminal child (pinned: any; repaired C03: one whose class is not a match rule)
@@ -316,6 +319,7 @@ inductive Outcome
   | model (v : Value) (c03 : Bool)
   | syntaxError                   -- TextXSyntaxError (NoMatch)
   | semanticError (e : BErr)
+  | indexError                    -- IndexError escapes from model construction
   | fuel
   | bad (what : String)
 deriving Repr, Inhabited
@@ -328,6 +332,7 @@ def build (x : BCtx) (fuel : Nat) (tree : Val) : Outcome :=
     | .ok (v, st) => .model v st.c03
     | .error .fuel => .fuel
     | .error (.bad w) => .bad w
+    | .error .indexError => .indexError
     | .error e => .semanticError e
   | _ => .bad "root"
 
